@@ -23,7 +23,9 @@ cleanup() {
 }
 trap cleanup EXIT
 # demonstration files = untracked files of the agent's worktree outside seeded/
-DEMOFILES=$(git -C "$SRC" ls-files --others --exclude-standard | grep -v '^seeded/' | grep -v '^PROPERTY.txt$')
+# (only those of this change: seeded_<letter>*; other changes' demos may be in flux in the same worktree)
+l=$(echo "$L" | tr 'A-Z' 'a-z')
+DEMOFILES=$(git -C "$SRC" ls-files --others --exclude-standard | grep -v '^seeded/' | grep -v '^PROPERTY.txt$' | grep -i "seeded_${l}[_.]")
 for f in $DEMOFILES; do mkdir -p "$WT/repo/$(dirname "$f")"; cp "$SRC/$f" "$WT/repo/$f"; done
 run_demo() { (cd "$WT/repo/v2" && timeout 600 bash -c "$DEMO") > "$WT/demo.$1.log" 2>&1; echo $?; }
 rc_clean=$(run_demo clean)
